@@ -226,6 +226,26 @@ func vChars(s string, maxLen int) []string {
 	}
 	return out
 }
+// vLikeElems: does s match the pattern given as elements (kinds[i] = 0: the literal lits[i],
+// 1: any one character, 2: any string)?
+func vLikeElems(kinds []int, lits []string, s string) bool {
+	if len(kinds) == 0 {
+		return s == ""
+	}
+	switch kinds[0] {
+	case 2:
+		for i := 0; i <= len(s); i++ {
+			if vLikeElems(kinds[1:], lits[1:], s[i:]) {
+				return true
+			}
+		}
+		return false
+	case 1:
+		return len(s) > 0 && vLikeElems(kinds[1:], lits[1:], s[1:])
+	}
+	l := lits[0]
+	return len(s) >= len(l) && s[:len(l)] == l && vLikeElems(kinds[1:], lits[1:], s[len(l):])
+}
 func vYield()   {}
 func vQuiesce() { time.Sleep(150 * time.Millisecond) }
 func vAnd(a, b bool) bool         { return a && b }
@@ -328,41 +348,26 @@ func init() {
 		if !ml.Const {
 			panic(inconclusive("vChars: symbolic maxLen"))
 		}
-		var parts []*Term
-		var flat func(t *Term)
-		flat = func(t *Term) {
-			if !t.Const && t.Op == "str.++" {
-				for _, a := range t.Args {
-					flat(a)
-				}
-				return
-			}
-			parts = append(parts, t)
-		}
-		flat(s)
-		out := []Value{}
-		for _, t := range parts {
-			if t.Const {
-				for i := 0; i < len(t.S); i++ {
-					out = append(out, mkStr(t.S[i:i+1]))
-				}
-				continue
-			}
-			n := int64(-1)
-			for v := int64(0); v <= ml.Int64(); v++ {
-				if c.branch(tEq(tStrLenInt(t), mkIntC(v)), "vChars.len") {
-					n = v
-					break
-				}
-			}
-			if n < 0 {
-				c.abort("inconclusive", fmt.Sprintf("vChars: component longer than %d characters (%s)", ml.Int64(), t))
-			}
-			for i := int64(0); i < n; i++ {
-				out = append(out, tSubstr(t, mkIntC(i), mkIntC(1)))
-			}
+		out := charsOfTerm(c, s, ml.Int64())
+		if out == nil {
+			out = []Value{}
 		}
 		return out
+	}
+	rtIntrinsics["vLikeElems"] = func(c *PathCtx, fr *frame, args []Value) Value {
+		ks, _ := args[0].([]Value)
+		ls, _ := args[1].([]Value)
+		kinds := make([]int, len(ks))
+		lits := make([]*Term, len(ks))
+		for i := range ks {
+			kt := ks[i].(*Term)
+			if !kt.Const {
+				panic(inconclusive("vLikeElems: symbolic element kind"))
+			}
+			kinds[i] = int(kt.Int64())
+			lits[i] = ls[i].(*Term)
+		}
+		return tLike(args[2].(*Term), kinds, lits)
 	}
 	rtIntrinsics["vAssert"] = func(c *PathCtx, fr *frame, args []Value) Value {
 		c.doAssert(fr, args[0].(*Term), strArg(args[1]))
@@ -501,4 +506,55 @@ func (c *PathCtx) doAssert(fr *frame, cond *Term, id string) {
 	} else if cond.U == 0 {
 		c.abort("infeasible", "assertion always fails on this path (reported)")
 	}
+}
+
+// charsOfTerm: the characters of a string term as one-character string terms. Constants give
+// concrete characters; (str.++ ...) is flattened; (str.replace_all x a b) with a constant
+// one-character a and constant b maps every character of x (forking on "is it a" for symbolic
+// characters); any other symbolic term t is forked over its length 0..maxLen and gives
+// (str.substr t i 1).
+func charsOfTerm(c *PathCtx, t *Term, maxLen int64) []Value {
+	if t.Const {
+		out := make([]Value, 0, len(t.S))
+		for i := 0; i < len(t.S); i++ {
+			out = append(out, mkStr(t.S[i:i+1]))
+		}
+		return out
+	}
+	if t.Op == "str.++" {
+		var out []Value
+		for _, a := range t.Args {
+			out = append(out, charsOfTerm(c, a, maxLen)...)
+		}
+		return out
+	}
+	if t.Op == "str.replace_all" && t.Args[1].Const && len(t.Args[1].S) == 1 && t.Args[2].Const {
+		var out []Value
+		for _, ch := range charsOfTerm(c, t.Args[0], maxLen) {
+			ct := ch.(*Term)
+			if c.branch(tEq(ct, t.Args[1]), "vChars.replace") {
+				for i := 0; i < len(t.Args[2].S); i++ {
+					out = append(out, mkStr(t.Args[2].S[i:i+1]))
+				}
+			} else {
+				out = append(out, ct)
+			}
+		}
+		return out
+	}
+	n := int64(-1)
+	for v := int64(0); v <= maxLen; v++ {
+		if c.branch(tEq(tStrLenInt(t), mkIntC(v)), "vChars.len") {
+			n = v
+			break
+		}
+	}
+	if n < 0 {
+		c.abort("inconclusive", fmt.Sprintf("vChars: component longer than %d characters (%s)", maxLen, t))
+	}
+	out := make([]Value, 0, n)
+	for i := int64(0); i < n; i++ {
+		out = append(out, tSubstr(t, mkIntC(i), mkIntC(1)))
+	}
+	return out
 }
